@@ -30,6 +30,20 @@ func DataSlice(fn *ssa.Function, seeds []ssa.Value) *Slice {
 
 func backwardSlice(fn *ssa.Function, seeds []ssa.Value, seedInstrs []ssa.Instruction, control bool) *Slice {
 	s := &Slice{Fn: fn, Values: map[ssa.Value]bool{}, Blocks: map[*ssa.BasicBlock]bool{}}
+	// the universe of the slice: fn, what is inlined into it, and - when fn itself is inlined - its hosts' bodies
+	inU := func(g *ssa.Function) bool {
+		if g == fn || InBody(fn, g) {
+			return true
+		}
+		if IsInlined(fn) {
+			for _, r := range Roots(fn) {
+				if InBody(r, g) {
+					return true
+				}
+			}
+		}
+		return false
+	}
 	var work []ssa.Value
 	addV := func(v ssa.Value) {
 		if v != nil && !s.Values[v] {
@@ -44,7 +58,12 @@ func backwardSlice(fn *ssa.Function, seeds []ssa.Value, seedInstrs []ssa.Instruc
 			return r
 		}
 		var out []*ssa.If
-		for _, iff := range Ifs(fn) {
+		g := b.Parent()
+		localExit := func(in ssa.Instruction) bool {
+			r, ok := in.(*ssa.Return)
+			return ok && r.Parent() == g
+		}
+		for _, iff := range ownIfs(g) {
 			a := iff.Block()
 			if a == b {
 				continue
@@ -59,8 +78,8 @@ func backwardSlice(fn *ssa.Function, seeds []ssa.Value, seedInstrs []ssa.Instruc
 					continue
 				}
 				// can an exit be reached from the successor without passing b? (a block that cannot reach an exit at all does not count)
-				toExit, _ := PathQuery{Avoid: inB}.Reaches(sb, 0, IsExit)
-				reachB, _ := PathQuery{}.Reaches(sb, 0, inB)
+				toExit, _ := PathQuery{Avoid: inB, Root: g}.Reaches(sb, 0, localExit)
+				reachB, _ := PathQuery{Root: g}.Reaches(sb, 0, inB)
 				pd[i] = !toExit && reachB
 			}
 			some, all := false, true
@@ -87,6 +106,12 @@ func backwardSlice(fn *ssa.Function, seeds []ssa.Value, seedInstrs []ssa.Instruc
 			addV(iff.Cond)
 			addBlock(iff.Block())
 		}
+		// a block of an inlined callee executes under the control of its call sites
+		for _, site := range InlineSites(b.Parent()) {
+			if inU(site.Parent()) {
+				addBlock(site.Block())
+			}
+		}
 	}
 	for _, v := range seeds {
 		addV(v)
@@ -105,7 +130,7 @@ func backwardSlice(fn *ssa.Function, seeds []ssa.Value, seedInstrs []ssa.Instruc
 		// contents written through a pointer that is in the slice (p.f = x) belong to what p denotes
 		if refs := v.Referrers(); refs != nil {
 			for _, ref := range *refs {
-				if fa, ok := ref.(*ssa.FieldAddr); ok && fa.X == v && fa.Parent() == fn {
+				if fa, ok := ref.(*ssa.FieldAddr); ok && fa.X == v && inU(fa.Parent()) {
 					for _, r2 := range *fa.Referrers() {
 						if st, ok := r2.(*ssa.Store); ok && st.Addr == fa {
 							addV(st.Val)
@@ -114,14 +139,38 @@ func backwardSlice(fn *ssa.Function, seeds []ssa.Value, seedInstrs []ssa.Instruc
 				}
 			}
 		}
+		if p, isParam := v.(*ssa.Parameter); isParam {
+			// parameter of an inlined callee: the arguments at its inlined sites
+			for _, site := range InlineSites(p.Parent()) {
+				if !inU(site.Parent()) {
+					continue
+				}
+				for i, q := range p.Parent().Params {
+					if q == p && i < len(site.Call.Args) {
+						addV(site.Call.Args[i])
+						addBlock(site.Block())
+					}
+				}
+			}
+			continue
+		}
 		in, isInstr := v.(ssa.Instruction)
 		if !isInstr {
-			continue // parameter, const, global, free var
+			continue // const, global, free var
 		}
-		if in.Parent() != fn {
+		if !inU(in.Parent()) {
 			continue
 		}
 		addBlock(in.Block())
+		if c, isCall := v.(*ssa.Call); isCall && InlinedCallee(c) != nil {
+			// result of an inlined call: what the callee returns (and, below, the arguments as before)
+			for _, ret := range Returns(InlinedCallee(c)) {
+				for _, rv := range ReturnValues(ret) {
+					addV(rv)
+				}
+				addBlock(ret.Block())
+			}
+		}
 		switch x := v.(type) {
 		case *ssa.Phi:
 			for i, e := range x.Edges {
@@ -245,14 +294,36 @@ func ControlConds(in ssa.Instruction) []ssa.Value {
 			out = append(out, iff.Cond)
 			rec(iff.Block())
 		}
+		for _, site := range InlineSites(b.Parent()) {
+			rec(site.Block())
+		}
 	}
 	rec(in.Block())
 	return out
 }
 
+// ownIfs lists the If terminators of g itself (not of what is inlined into it).
+func ownIfs(g *ssa.Function) []*ssa.If {
+	var out []*ssa.If
+	for _, b := range g.Blocks {
+		if len(b.Instrs) == 0 {
+			continue
+		}
+		if i, ok := b.Instrs[len(b.Instrs)-1].(*ssa.If); ok {
+			out = append(out, i)
+		}
+	}
+	return out
+}
+
 func controlDepsOf(fn *ssa.Function, b *ssa.BasicBlock) []*ssa.If {
 	var out []*ssa.If
-	for _, iff := range Ifs(fn) {
+	g := b.Parent()
+	localExit := func(in ssa.Instruction) bool {
+		r, ok := in.(*ssa.Return)
+		return ok && r.Parent() == g
+	}
+	for _, iff := range ownIfs(g) {
 		a := iff.Block()
 		if a == b {
 			continue
@@ -264,8 +335,8 @@ func controlDepsOf(fn *ssa.Function, b *ssa.BasicBlock) []*ssa.If {
 			if sb == b {
 				pd = true
 			} else {
-				toExit, _ := PathQuery{Avoid: inB}.Reaches(sb, 0, IsExit)
-				reachB, _ := PathQuery{}.Reaches(sb, 0, inB)
+				toExit, _ := PathQuery{Avoid: inB, Root: g}.Reaches(sb, 0, localExit)
+				reachB, _ := PathQuery{Root: g}.Reaches(sb, 0, inB)
 				pd = !toExit && reachB
 			}
 			if pd {
